@@ -150,6 +150,8 @@ extern "C" {
 }
 extern "C" void verif_symbolic_phase(void) {}
 extern "C" void verif_nogrow(void*) {}
+extern "C" void verif_snprintf_mode(int) {}
+extern "C" long verif_snprintf_arg(int) { return 0; }
 struct Ent { const char* name; int (*prop)(const uint8_t*, uint8_t*); int (*assume)(const uint8_t*); int (*known)(const uint8_t*); int in, out; };
 static Ent ents[] = {
 %(ents)s
@@ -333,8 +335,8 @@ def cbmc_cmd(o, d, backend, witness=False):
     if o.get('_unwindset'): cmd += ['--unwindset', ','.join(o['_unwindset'])]
     if backend == 'kissat': cmd += ['--external-sat-solver', 'kissat']
     elif backend == 'cadical': cmd += ['--sat-solver', 'cadical']
-    elif backend == 'z3': cmd += ['--z3']
-    elif backend == 'cvc5': cmd += ['--cvc5']
+    elif backend == 'z3': cmd += ['--z3', '--slice-formula']
+    elif backend == 'cvc5': cmd += ['--cvc5', '--slice-formula']      # with engine/shim first in PATH: cvc5 --solve-bv-as-int=sum
     return cmd
 
 def loops_of(d, o):
@@ -400,7 +402,7 @@ def run_race(o, d, cap, witness=False):
         cmd = cbmc_cmd(o, d, b, witness)
         outp = os.path.join(d, 'cbmc_%s_%s%s.out' % (o['name'], b, '_w' if witness else ''))
         f = open(outp, 'w')
-        pre = 'ulimit -v %d; exec ' % (o.get('mem_gb', 12) * 1024 * 1024)
+        pre = 'ulimit -v %d; export PATH=%s:$PATH; exec ' % (o.get('mem_gb', 12) * 1024 * 1024, os.path.join(ENGINE, 'shim'))
         p = subprocess.Popen(['bash', '-c', pre + ' '.join("'%s'" % c for c in cmd) + ' 2>&1'], stdout=f, stderr=subprocess.STDOUT,
                              preexec_fn=os.setsid)
         procs.append((b, p, outp, f))
